@@ -60,8 +60,8 @@ topic): `target.fill_solid(&r, c)` is the one call, `x.m(target, ..)` the callee
 translator's own type check.
 All semantics live in the hand-written prelude EG/Model/CurveSrcPrelude.lean (`pow`, `Range::find`, `Option::map`, the
 `u64` arithmetic and casts) and in tr_rect's prelude. Anything unknown raises; `generate` then writes a
-CurveSrc.lean that only contains `def translationFailed`, so exactly the theorems of Props/C05/Generated*.lean and
-Props/C18/Generated*.lean stop building.
+CurveSrc.lean that only contains `def translationFailed`, so exactly the theorems of Props/C05/Generated*.lean,
+Props/C06/Generated*.lean and Props/C18/Generated*.lean stop building.
 """
 import contextlib
 import os
@@ -893,13 +893,14 @@ class CurveTranslator(tr_rect.Translator):
 HEADER = """/-
   EG.Generated.CurveSrc — GENERATED by tools/tr_curve.py from /repo's current sources. Do not edit.
 
-  One `def` per Rust function of src/primitives/{circle,ellipse}/{mod,points}.rs, src/primitives/common/scanline.rs
-  (`Scanline::new / new_empty / is_empty / next`) and `PointExt::length_squared`, mirroring the Rust text arm for arm,
-  and one `structure` per Rust `struct` of these files. Rust primitives are functions of the hand-written preludes
+  One `def` per Rust function of src/primitives/{circle,ellipse}/{mod,points,styled}.rs,
+  src/primitives/common/{scanline,styled_scanline}.rs, src/primitives/primitive_style.rs and `PointExt::length_squared`,
+  mirroring the Rust text arm for arm, and one `structure` / `inductive` per Rust `struct` / `enum` of these files. A function
+  that draws on a generic target is the list of target calls it makes on a target that never fails (`List EG.Call`). Rust primitives are functions of the hand-written preludes
   EG/Model/RectSrcPrelude.lean and EG/Model/CurveSrcPrelude.lean; `Rectangle` / `Point` / `Size` functions are the
   regenerated `RectSrc.*` of EG/Generated/RectSrc.lean. The theorems `<name>_src_eq_model` of
-  EG/Props/C05/Generated*.lean and EG/Props/C18/Generated*.lean prove these definitions equal to the hand-written models
-  EG/Model/{Circle,Ellipse,EllipseContains,Scanline}.lean, for all inputs.
+  EG/Props/C05/Generated*.lean, EG/Props/C06/Generated*.lean and EG/Props/C18/Generated*.lean prove these definitions equal
+  to the hand-written models EG/Model/{Circle,Ellipse,EllipseContains,Scanline,StyledScanline,PrimStyle}.lean, for all inputs.
 -/
 import EG.Generated.RectSrc
 import EG.Model.CurveSrcPrelude
@@ -1049,8 +1050,8 @@ def failed_file(reason):
     r = reason.replace("\\", "\\\\").replace('"', '\\"').replace("\n", " ")
     return ("/-\n  EG.Generated.CurveSrc — GENERATED by tools/tr_curve.py. THE TRANSLATION FAILED: the Rust source of the circle /\n"
             "  ellipse primitives (or of what they call) contains a construct the translator does not know. No function is\n"
-            "  defined here, so the `_src_eq_model` theorems of EG/Props/C05/Generated*.lean and EG/Props/C18/Generated*.lean\n"
-            "  do not build.\n-/\n"
+            "  defined here, so the `_src_eq_model` theorems of EG/Props/C05/Generated*.lean, EG/Props/C06/Generated*.lean and\n"
+            "  EG/Props/C18/Generated*.lean do not build.\n-/\n"
             "namespace EG.Generated.CurveSrc\n\n"
             f"def translationFailed : String := \"{r}\"\n\nend EG.Generated.CurveSrc\n")
 
